@@ -100,7 +100,12 @@ func BodyOK(b string) bool {
 	if b == "" || b == "|" {
 		return false
 	}
-	if strings.ContainsAny(b, "\t\n\r\x00\\") {
+	if strings.ContainsAny(b, "\t\n\r\x00") {
+		return false
+	}
+	// a backslash stands for itself unless a blank follows it; at the end of a body it would
+	// swallow the separator
+	if strings.HasSuffix(b, "\\") {
 		return false
 	}
 	switch b[0] {
